@@ -251,8 +251,7 @@ func faultMain(x *X) {
 		}
 	}
 
-	if o.Acct != nil && len(o.Acct.LiveAfterCancel) > 0 && !(o.Fallback && op.ClientClose) {
-		// (on the fallback path Close() is the reference engine's, which does not cancel)
+	if o.Acct != nil && len(o.Acct.LiveAfterCancel) > 0 {
 		x.Viol("C14", "cancel-ignored", "cancel-ignored|"+path, fmt.Sprintf("%s: Cancel()/Close() returned while Exec was running, yet storage callbacks %v still ran with a live context: the cancellation did not reach the query", op.Q, o.Acct.LiveAfterCancel))
 	}
 
